@@ -62,6 +62,9 @@ def atoms():
         -float("nan"),
         complex(-float("nan"), 0.0),
         struct.unpack(">d", bytes([0x7F, 0xF8, 0, 0, 0, 0, 0, 1]))[0],
+        # a high surrogate directly followed by a low one: still two unencodable code
+        # points in a Python str (JSON text would fuse them into one character)
+        "\ud83d\ude00",
     ]
     return a
 
